@@ -213,6 +213,8 @@ class Ev:
             if op == '//' and b.is_const() and a.is_const(): return Aff(a.c // b.c)
             if op == '//' and b.is_const() and all(v % b.c == 0 for v in a.t.values()) and a.c % b.c == 0:
                 return Aff(a.c // b.c, {k: v // b.c for k, v in a.t.items()})
+            if op == '//' and b.is_const() and b.c > 0:
+                return Aff.sym(f'({a.coq()} / {b.c})')
         if isinstance(a, Scal) and isinstance(b, Scal) and op in '+-*':
             return Scal(f'({a.t} {op} {b.t})')
         if isinstance(a, Scal) and isinstance(b, RM) and op == '*':
